@@ -50,6 +50,10 @@ class Factor:
                 if not it[a:cut]:
                     self.macros.pop()
                     return it
+                if it.count(it[a:cut]) > 1:
+                    # the factored text occurs several times in the name: every occurrence becomes a reference
+                    self.forms.append("substring-repeated")
+                    return it.replace(it[a:cut], name)
                 self.forms.append("substring-middle")
                 return it[:a] + name + it[cut:]
             if k < 55:
